@@ -14,5 +14,7 @@ def check(ctx, rep):
     _shape.wrap_1(ctx, rep)      # decorated -> async_funcdef -> funcdef: unwrap chains are closed under the grammar
     from ..rules import gr as _gr9
     _gr9.gr_9(ctx, rep)          # the diff cache is keyed by the grammar hash: versions that share a grammar text must tokenize alike
+    from ..rules import cache as _c10
+    _c10.cache_9_10(ctx, rep)    # the entry the next incremental parse starts from holds the lines of this parse: stored on every way through try_to_save_module
     rep.note('Not decided: equivalence of the incremental and the fresh tree over edit histories (difflib opcodes, '
              'line arithmetic, copy heuristics are value driven).')
